@@ -40,6 +40,9 @@ def run(ctx: Ctx) -> None:
 
     # ---- X1 --------------------------------------------------------------------------------------
     ctx.rule("X1", "partial operations on the non-lark load path are guarded, raise Lark errors, or are tabled", 8)
+    from .. import lenfacts
+
+    ctx.units["length_analysis_self_check_cases"] = lenfacts.self_check()
     direct = facts.reachable_direct(["utils.open", "utils.load", "utils.loads"])
     missing = [q for q in LOADPATH if q not in direct]
     if missing:
@@ -236,6 +239,17 @@ def _assert_on_defaults(facts, direct, q: str, fn: ast.FunctionDef, node: ast.As
     params = [a.arg for a in fn.args.args]
     defaults = dict(zip(params[len(params) - len(fn.args.defaults) :], fn.args.defaults))
     names = {x.id for x in ast.walk(node.test) if isinstance(x, ast.Name)}
+    # module-level constant tables the test consults (``assert quote in QUOTE_CHARS``)
+    mod = q.split(".")[0]
+    mi = facts.repo.module(mod)
+    consts = {}
+    for nm in sorted(names - set(params)):
+        if nm in mi.assigns:
+            try:
+                consts[nm] = facts.repo.const(mod, nm)
+            except Exception:
+                return False
+    names -= set(consts)
     if not names or not names <= set(defaults):
         return False
     sites = [cs for caller in direct for cs in facts.calls.get(caller, []) if cs.target == q]
@@ -244,7 +258,7 @@ def _assert_on_defaults(facts, direct, q: str, fn: ast.FunctionDef, node: ast.As
     for cs in sites:
         if cs.node.args or any(k.arg is None or k.arg in names for k in cs.node.keywords):
             return False
-    env = {}
+    env = dict(consts)
     for nm in names:
         try:
             env[nm] = fold(defaults[nm])
@@ -330,4 +344,14 @@ def _index_guarded(fn: ast.FunctionDef, sub: ast.Subscript, idx: int) -> tuple[b
                 lo = {ast.Lt: c, ast.LtE: c + 1}.get(op)
             if lo is not None and lo >= need:
                 return True, f"dominated by {'not ' if not pos else ''}{norm(t)}"
+    # a local work list (explicit stack): the length is a loop invariant rather than a dominating test
+    if isinstance(sub.value, ast.Name):
+        from .. import lenfacts
+
+        facts_ = lenfacts.min_len_at(fn, sub.value.id)
+        st = lenfacts.enclosing_stmt(fn, sub) if facts_ is not None else None
+        if st is not None and id(st) in facts_:
+            shrink = sum(1 for c in ast.walk(st) if isinstance(c, ast.Call) and isinstance(c.func, ast.Attribute) and isinstance(c.func.value, ast.Name) and c.func.value.id == sub.value.id and c.func.attr in ("pop", "remove", "clear") and lenfacts.enclosing_stmt(fn, c) is st)
+            if shrink == 0 and facts_[id(st)] >= need:
+                return True, f"{base} is a local list holding at least {facts_[id(st)]} element(s) on every path to this statement (forward length analysis, loops at fixpoint)"
     return False, "no dominating length test"
